@@ -19,6 +19,8 @@ pub enum Variant {
     RcDropA,
     /// by_rc; after `split_at` pulls branch B is dropped and the remaining choices all go to A
     RcDropB,
+    /// by_ref for the first `split_at` pulls, then the Fork is cloned and the clone is split (by_ref) for the rest
+    CloneThenRef,
 }
 
 #[derive(Clone, Debug, Serialize, Deserialize)]
@@ -37,6 +39,9 @@ pub struct Case {
     /// the (empty) ring buffer handed to fork() starts at this backing index (taken modulo the capacity)
     #[serde(default)]
     pub rb_start: usize,
+    /// finite sources only: this many frames are still index-coded after the source reports exhaustion
+    #[serde(default)]
+    pub tail: u64,
 }
 
 trait Br<F> {
@@ -73,13 +78,14 @@ struct State {
     hit_cap: bool,
     forced: u32,
     src_len: Option<u64>,
+    tail: u64,
 }
 
 /// frame k of the probe: its index code while the source lasts, equilibrium afterwards
-fn is_frame<F: Coded>(got: F, k: u64, src_len: Option<u64>) -> bool {
-    match src_len {
-        Some(l) if k >= l => got.is_equilibrium(),
-        _ => got.decode() == Some(k),
+fn is_frame<F: Coded>(got: F, k: u64, src_len: Option<u64>, tail: u64) -> bool {
+    match Probe::<F>::expected(src_len, tail, k) {
+        None => got.is_equilibrium(),
+        Some(k) => got.decode() == Some(k),
     }
 }
 
@@ -106,7 +112,7 @@ fn run_steps<F: Coded>(a: &mut dyn Br<F>, b: &mut dyn Br<F>, choices: &[bool], s
         let step = base + k;
         let who = if pull_a { "A" } else { "B" };
         ensure!(
-            is_frame(got, idx, s.src_len),
+            is_frame(got, idx, s.src_len, s.tail),
             "step {}: branch {} pull #{} returned {:?} (frame {:?}), expected source frame {} (A has pulled {}, B {}; the source has {:?} frames)",
             step, who, idx, got, got.decode(), idx, s.pa, s.pb, s.src_len
         );
@@ -130,11 +136,11 @@ fn run_steps<F: Coded>(a: &mut dyn Br<F>, b: &mut dyn Br<F>, choices: &[bool], s
     Ok(())
 }
 
-fn run_fork<F: Coded, D: SliceMut<Element = F>>(rb: Bounded<D>, c: &Case, st: &mut Stats) -> CheckResult {
+fn run_fork<F: Coded, D: SliceMut<Element = F> + Clone>(rb: Bounded<D>, c: &Case, st: &mut Stats) -> CheckResult {
     let counters = Counters::new();
-    let probe: Probe<F> = Probe::new(c.src_len, counters.clone());
+    let probe: Probe<F> = Probe::with_tail(c.src_len, c.tail, counters.clone());
     let mut fork = probe.fork(rb);
-    let mut s = State { pa: 0, pb: 0, cap: c.cap as u64, sign_flips: 0, last_sign: 0, hit_cap: false, forced: 0, src_len: c.src_len };
+    let mut s = State { pa: 0, pb: 0, cap: c.cap as u64, sign_flips: 0, last_sign: 0, hit_cap: false, forced: 0, src_len: c.src_len, tail: c.tail };
     let split = c.split_at.min(c.choices.len());
     match c.variant {
         Variant::ByRef => {
@@ -163,6 +169,19 @@ fn run_fork<F: Coded, D: SliceMut<Element = F>>(rb: Bounded<D>, c: &Case, st: &m
             let (mut a, mut b) = fork.by_rc();
             run_steps::<F>(&mut a, &mut b, &c.choices[split..], &mut s, &counters, split)?;
         }
+        Variant::CloneThenRef => {
+            {
+                let (mut a, mut b) = fork.by_ref();
+                run_steps::<F>(&mut a, &mut b, &c.choices[..split], &mut s, &counters, 0)?;
+            }
+            st.class_if(s.pa != s.pb, "fork cloned with frames still pending");
+            // the clone carries the source position, the queued frames and whom they are for
+            let mut twin = fork.clone();
+            drop(fork);
+            let (mut a, mut b) = twin.by_ref();
+            run_steps::<F>(&mut a, &mut b, &c.choices[split..], &mut s, &counters, split)?;
+            st.class("fork cloned mid-use");
+        }
         Variant::RcDropA | Variant::RcDropB => {
             let (mut a, mut b) = fork.by_rc();
             run_steps::<F>(&mut a, &mut b, &c.choices[..split], &mut s, &counters, 0)?;
@@ -173,7 +192,7 @@ fn run_fork<F: Coded, D: SliceMut<Element = F>>(rb: Bounded<D>, c: &Case, st: &m
                 st.class_if(s.pb < s.pa, "by_rc branch dropped while the other still has pending frames");
                 for j in 0..rest {
                     let g = b.next();
-                    ensure!(is_frame(g, s.pb, c.src_len), "after branch A was dropped, B's pull #{} returned {:?} (frame {:?}), expected source frame {}", s.pb, g, g.decode(), s.pb);
+                    ensure!(is_frame(g, s.pb, c.src_len, c.tail), "after branch A was dropped, B's pull #{} returned {:?} (frame {:?}), expected source frame {}", s.pb, g, g.decode(), s.pb);
                     s.pb += 1;
                     ensure!(counters.pulls() == s.pa.max(s.pb), "after branch A was dropped (step {}): source pulled {} times, expected {}", j, counters.pulls(), s.pa.max(s.pb));
                     ensure!(b.pending_frames() as u64 == s.pa.saturating_sub(s.pb), "after branch A was dropped: B.pending_frames() = {}, lag {}", b.pending_frames(), s.pa.saturating_sub(s.pb));
@@ -183,7 +202,7 @@ fn run_fork<F: Coded, D: SliceMut<Element = F>>(rb: Bounded<D>, c: &Case, st: &m
                 st.class_if(s.pa < s.pb, "by_rc branch dropped while the other still has pending frames");
                 for j in 0..rest {
                     let g = a.next();
-                    ensure!(is_frame(g, s.pa, c.src_len), "after branch B was dropped, A's pull #{} returned {:?} (frame {:?}), expected source frame {}", s.pa, g, g.decode(), s.pa);
+                    ensure!(is_frame(g, s.pa, c.src_len, c.tail), "after branch B was dropped, A's pull #{} returned {:?} (frame {:?}), expected source frame {}", s.pa, g, g.decode(), s.pa);
                     s.pa += 1;
                     ensure!(counters.pulls() == s.pa.max(s.pb), "after branch B was dropped (step {}): source pulled {} times, expected {}", j, counters.pulls(), s.pa.max(s.pb));
                     ensure!(a.pending_frames() as u64 == s.pb.saturating_sub(s.pa), "after branch B was dropped: A.pending_frames() = {}, lag {}", a.pending_frames(), s.pb.saturating_sub(s.pa));
@@ -203,6 +222,7 @@ fn run_fork<F: Coded, D: SliceMut<Element = F>>(rb: Bounded<D>, c: &Case, st: &m
     st.class_if(s.forced > 0, "choice redirected to keep the lead within capacity");
     st.class_if(c.src_len.map_or(false, |l| s.pa.max(s.pb) > l && s.pa.min(s.pb) < s.pa.max(s.pb)), "finite source ends while one branch is ahead");
     st.class_if(c.rb_start % c.cap != 0, "empty ring buffer that does not start at slot 0");
+    st.class_if(c.src_len.is_some() && c.tail > 0 && s.pa.max(s.pb) > c.src_len.unwrap(), "source reports exhaustion while still yielding frames");
     Ok(())
 }
 
@@ -277,7 +297,7 @@ fn valid_schedules(cap: usize, len: usize) -> Vec<Vec<bool>> {
 
 pub fn case_strategy(max_cap: usize, max_len: usize) -> impl Strategy<Value = Case> {
     let cap = prop_oneof![3 => 1usize..=3, 2 => proptest::sample::select(vec![1usize, 2, 3, 4, 5, 8, 16]), 2 => 1usize..=max_cap];
-    (cap, any::<bool>(), any::<bool>(), 0usize..6, 0usize..max_len, prop_oneof![2 => Just(None), 1 => (0u64..40).prop_map(Some)], 0usize..70).prop_flat_map(move |(cap, arr, int, v, len, src_len, rb_start)| {
+    (cap, any::<bool>(), any::<bool>(), 0usize..7, 0usize..max_len, prop_oneof![2 => Just(None), 1 => (0u64..40).prop_map(Some)], 0usize..70).prop_flat_map(move |(cap, arr, int, v, len, src_len, rb_start)| {
         // runs: biased toward long runs of one branch (reaching the capacity) and sign flips
         let runs = proptest::collection::vec((any::<bool>(), 1usize..=(2 * cap + 2)), 0..(len / 2 + 1));
         (runs, 0usize..(len + 1)).prop_map(move |(runs, split_at)| {
@@ -292,11 +312,12 @@ pub fn case_strategy(max_cap: usize, max_len: usize) -> impl Strategy<Value = Ca
                 cap,
                 array_storage: arr,
                 int_frames: int,
-                variant: [Variant::ByRef, Variant::ByRc, Variant::ResplitRefRef, Variant::ResplitRefRc, Variant::RcDropA, Variant::RcDropB][v],
+                variant: [Variant::ByRef, Variant::ByRc, Variant::ResplitRefRef, Variant::ResplitRefRc, Variant::RcDropA, Variant::RcDropB, Variant::CloneThenRef][v],
                 choices,
                 split_at,
                 src_len,
                 rb_start,
+                tail: (rb_start % 3) as u64 * 2,
             }
         })
     })
@@ -304,14 +325,14 @@ pub fn case_strategy(max_cap: usize, max_len: usize) -> impl Strategy<Value = Ca
 
 pub fn run(ctx: &mut Ctx) {
     ctx.set_rule(
-        "cases are (capacity, storage, start slot of the empty ring buffer handed to fork, frame type, endless or finite source, by_ref | by_rc | re-split variant, schedule over {A,B}); every schedule of every length up to 16 (thorough 20) \
+        "cases are (capacity, storage, start slot of the empty ring buffer handed to fork, frame type, endless or finite source, by_ref | by_rc | re-split | clone-then-split variant, schedule over {A,B}); every schedule of every length up to 16 (thorough 20) \
          whose lead never exceeds the capacity, for capacities 1..=4 (thorough 1..=5), generated constructively (nothing discarded), for by_ref and by_rc; proptest schedules \
          of up to 400 pulls built from runs (so that the lead reaches the capacity and flips sign), capacity up to 64, all variants incl. re-split at a random point; \
          non-trivial: the lead changes sign, or reaches the capacity exactly, or capacity 1, or re-split",
     );
     ctx.assume("the source is an instrumented probe whose frame k encodes k; branch X's k-th pull must return frame k, the probe's pull counter must equal max(pulls_A, pulls_B), pending_frames must equal the lag, after every single pull");
     ctx.assume("schedules are single-threaded orders of next() calls (the branch types are !Sync); a choice that would violate the lead <= capacity precondition is redirected to the other branch by construction");
-    for c in ["lead changes sign", "lead reaches the capacity exactly", "capacity 1", "re-split", "re-split with frames still pending", "finite source ends while one branch is ahead", "empty ring buffer that does not start at slot 0"] {
+    for c in ["lead changes sign", "lead reaches the capacity exactly", "capacity 1", "re-split", "re-split with frames still pending", "finite source ends while one branch is ahead", "empty ring buffer that does not start at slot 0", "source reports exhaustion while still yielding frames", "fork cloned with frames still pending"] {
         ctx.require_class(c);
     }
 
@@ -332,6 +353,7 @@ pub fn run(ctx: &mut Ctx) {
                     split_at: 0,
                     src_len: [None, Some(2), None, Some(5)][(k / 7) % 4],
                     rb_start: k / 3,
+                    tail: (k % 3) as u64,
                 });
             }
         }
@@ -345,7 +367,7 @@ pub fn run(ctx: &mut Ctx) {
             for s in valid_schedules(cap, len) {
                 for split_at in 1..len {
                     let k = cases.len();
-                    cases.push(Case { cap, array_storage: k % 2 == 0, int_frames: false, variant: if k % 2 == 0 { Variant::ResplitRefRef } else { Variant::ResplitRefRc }, choices: s.clone(), split_at, src_len: if k % 5 == 0 { Some(3) } else { None }, rb_start: k % 4 });
+                    cases.push(Case { cap, array_storage: (k / 3) % 2 == 0, int_frames: false, variant: [Variant::ResplitRefRef, Variant::ResplitRefRc, Variant::CloneThenRef][k % 3], choices: s.clone(), split_at, src_len: if k % 5 == 0 { Some(3) } else { None }, rb_start: k % 4, tail: (k % 2) as u64 * 3 });
                 }
             }
         }
@@ -361,7 +383,7 @@ pub fn run(ctx: &mut Ctx) {
                 for variant in [Variant::RcDropA, Variant::RcDropB] {
                     let mut choices = s.clone();
                     choices.extend([true; 4]);
-                    cases.push(Case { cap, array_storage: len % 2 == 0, int_frames: false, variant, choices, split_at: len, src_len: if len % 3 == 0 { Some(4) } else { None }, rb_start: len });
+                    cases.push(Case { cap, array_storage: len % 2 == 0, int_frames: false, variant, choices, split_at: len, src_len: if len % 3 == 0 { Some(4) } else { None }, rb_start: len, tail: (len % 2) as u64 * 2 });
                 }
             }
         }
